@@ -42,6 +42,11 @@ CHECKS.update({
         "note": M1NOTE + " Dense-time reading as stated in spec/UPTimeSem.tla; plans of <= 3 steps.",
         "technique": "recorded validator verdicts judged by the TLA+ temporal semantics (UPTimeSem) evaluated by TLC",
     },
+    "C35": {
+        "text": "Trace validation over UPSeqSem: generated contingent problems (hidden fluents under oneof/or/unknown constraints incl. negated literals, explicit values, per-fluent and per-type defaults, sensing and ordinary actions) x random seeds; every run of the real SimulatedExecutionEnvironment is validated as a behaviour Pick;Do*: the picked initial state satisfies every constraint and gives every non-hidden fluent its declared value, each applied action is a Step of the sequential semantics (the environment raises iff Step says inapplicable), and returned observations equal the current values.",
+        "note": M1NOTE + " The state is observed through a sensing action observing every ground fluent.",
+        "technique": "trace validation of recorded environment runs against the TLA+ sequential semantics (UPSeqSem) by TLC",
+    },
     "C14": {
         "text": "T1: DagWalker.tla models memo/stack handling of the shared walkers as written; TLC checks HistoryIndependent and CleanBetweenCalls for all call histories within bounds (and that the unrepaired model has a counterexample, which is replayed on the real walkers). T2/T3: thousands of TLC-enumerated call histories over substituter, simplifier, type checker, free-vars/names extractors and quantifier remover, with failures injected mid-walk, are replayed on one shared Environment and call by call on fresh Environments; the trace spec judges result equality and walker cleanliness after every call.",
         "note": TRUST + " Histories of <= 3-4 calls exhaustive over a 28-node expression menu, longer ones sampled.",
